@@ -29,6 +29,9 @@ RegCases ==
            : l \in RegLens, pre \in Pres}
     \* every key-handle length (the one-byte length field)
     \cup {UCase(Reg(0, kh, 0, 0), << >>, 330, "register-kh") : kh \in (IF Deep THEN 0..255 ELSE {0, 1, 127, 128, 254, 255})}
+    \* the public key is a member like the others: shorter than a point, against capacities around the total
+    \cup UNION {{UCase([Reg(5, 10, 20, 30) EXCEPT !.publicKey = Pattern(126, k)], << >>, cap, "register-short-key") :
+                    cap \in {n \in Caps : (62 + k) - n \in -3..70}} : k \in {0, 1, 31, 33, 64, 65}}
     \* the capacity falls inside each part in turn
     \cup {UCase(Reg(255, 10, 20, 30), << >>, cap, "register-parts") : cap \in 0..80 \cup {255}}
 
@@ -64,7 +67,7 @@ U2fEncode ==
     phase = "encoded" /\ case.op = "u2f_encode" =>
         LET bytes == Ctap1ResponseBytes(case.resp)
             sum   == CASE case.resp.variant = "Register" ->
-                            1 + 65 + 1 + Len(case.resp.keyHandle) + Len(case.resp.cert) + Len(case.resp.sig)
+                            1 + Len(case.resp.publicKey) + 1 + Len(case.resp.keyHandle) + Len(case.resp.cert) + Len(case.resp.sig)
                        [] case.resp.variant = "Authenticate" -> 1 + 4 + Len(case.resp.sig)
                        [] case.resp.variant = "Version" -> 6
         IN  /\ Len(bytes) = sum
@@ -73,8 +76,8 @@ U2fEncode ==
             /\ (ret.ok => Len(ret.buf) = Len(case.pre) + sum)
             /\ (ret.ok /\ case.resp.variant = "Register" =>
                     /\ ret.buf[Len(case.pre) + 1] = case.resp.header
-                    /\ ret.buf[Len(case.pre) + 2] = 4
-                    /\ ret.buf[Len(case.pre) + 67] = Len(case.resp.keyHandle))
+                    /\ (Len(case.resp.publicKey) = 65 => ret.buf[Len(case.pre) + 2] = case.resp.publicKey[1])
+                    /\ ret.buf[Len(case.pre) + 2 + Len(case.resp.publicKey)] = Len(case.resp.keyHandle))
             /\ (ret.ok /\ case.resp.variant = "Authenticate" =>
                     SubSeq(ret.buf, Len(case.pre) + 2, Len(case.pre) + 5) = BNPad(case.resp.count, 4))
 =============================================================================
